@@ -3,6 +3,7 @@ package main
 // SMT-LIB query assembly and solver racing.
 
 import (
+	"math/big"
 	"bytes"
 	"context"
 	"fmt"
@@ -115,6 +116,49 @@ func (q *Query) Text(withModel bool) string {
 	if used["str.ofbytes"] && used["bytes.ofstr"] {
 		axioms = append(axioms, "(assert (forall ((s Int)) (= (str.ofbytes (bytes.ofstr s)) s)))")
 	}
+	if used["f64.mul"] {
+		// multiplying a float by powers of two is exact (no rounding; overflow gives +-Inf either way):
+		// (x*2^a)*2^b == x*2^(a+b) and x*1 == x, for the power-of-two literals that occur
+		var pows []*big.Int
+		for s := range used {
+			if strings.HasPrefix(s, "f64.lit.") {
+				if n, ok := new(big.Int).SetString(s[len("f64.lit."):], 10); ok && n.Sign() > 0 && n.BitLen() <= 62 && new(big.Int).And(n, new(big.Int).Sub(n, big.NewInt(1))).Sign() == 0 {
+					pows = append(pows, n)
+				}
+			}
+		}
+		// close under products (bounded by 2^62)
+		for round := 0; round < 4; round++ {
+			seen := map[string]bool{}
+			for _, p := range pows {
+				seen[p.String()] = true
+			}
+			n := len(pows)
+			for i := 0; i < n; i++ {
+				for j := i; j < n; j++ {
+					p := new(big.Int).Mul(pows[i], pows[j])
+					if p.BitLen() <= 62 && !seen[p.String()] {
+						seen[p.String()] = true
+						pows = append(pows, p)
+					}
+				}
+			}
+		}
+		sort.Slice(pows, func(i, j int) bool { return pows[i].Cmp(pows[j]) < 0 })
+		for _, a := range pows {
+			if a.Cmp(big.NewInt(1)) == 0 {
+				axioms = append(axioms, "(assert (forall ((x Int)) (= (f64.mul x f64.lit.1) x)))")
+				continue
+			}
+			for _, c := range pows {
+				p := new(big.Int).Mul(a, c)
+				if c.Cmp(big.NewInt(1)) == 0 || p.BitLen() > 62 {
+					continue
+				}
+				axioms = append(axioms, fmt.Sprintf("(assert (forall ((x Int)) (= (f64.mul (f64.mul x f64.lit.%s) f64.lit.%s) (f64.mul x f64.lit.%s))))", a, c, p))
+			}
+		}
+	}
 	if q.ExpectSat {
 		axioms = nil
 	}
@@ -144,7 +188,11 @@ func (q *Query) Text(withModel bool) string {
 				} else {
 					fmt.Fprintf(&b, "(declare-const %s %s)\n", n, sort)
 				}
+				continue
 			}
+		}
+		if strings.HasPrefix(n, "f64.lit.") {
+			fmt.Fprintf(&b, "(declare-const %s Int)\n", n) // introduced by a float axiom
 		}
 	}
 	ufMu.Unlock()
